@@ -22,5 +22,9 @@ def run(ctx):
     ca.claim_order(ctx)
     ctx.rule("R-LOSE-ORDER", "a losing CA has left NORMAL / recorded the new announcement before its next frame is sent", floor=2)
     ca.lose_order(ctx)
+    ctx.rule("R-CLAIM-TRACK", "every claim handed to the bus names the address held or recorded as announced at that moment", floor=4)
+    ca.claim_track(ctx)
+    ctx.rule("R-NORMAL-ANNOUNCED", "entering NORMAL keeps announced == held (the losing branch claims announced + 1)", floor=2)
+    ca.normal_announced(ctx)
     ca.claim_only(ctx)
     return "J1939-81 decision table, comparison direction, broadcast and veto-timer shape of the claim procedure"
